@@ -21,5 +21,16 @@ Record(st, now, v) == [usage |-> v, start |-> st.start, end |-> Some(now)]
 Reset(st, now) == [usage |-> 0, start |-> Some(now), end |-> Some(now)]
 
 Ordered(st) == st.start.has /\ st.end.has /\ st.start.v <= st.end.v
+
+(* RecordReading is not atomic: it takes its instant `at` from the clock    *)
+(* and commits later; another client's write may land in between, leaving  *)
+(* the reading `mid`.  The call must then either be refused (and change    *)
+(* nothing) or commit a reading that is still consistent: usage and end    *)
+(* are the call's, the start is the one stored at commit, start <= end.    *)
+(* (MeterConcMC.tla: reading the value BEFORE taking the instant and       *)
+(* refusing the commit when the value has changed guarantees this; taking  *)
+(* the instant first does not.)                                            *)
+ConcurrentRecordOk(mid, at, v, err, post) ==
+  IF err # "OK" THEN post = mid ELSE post = Record(mid, at, v) /\ Ordered(post)
 NoReading == [usage |-> 0, start |-> None, end |-> None]
 =============================================================================
